@@ -107,6 +107,9 @@ func runC11(c *Ctx) {
 		c.Sample(map[string]any{"stream": "calendar", "day": days[0], "impl": implCal(days[0])})
 	}
 
+	// ---- stream gosem: the prelude of the Go→Lean translator (lean/Knut/GoSem) against the real Go primitives
+	runGoSemStream(c, c.N(6000, 200000))
+
 	// ---- stream 2: partitions, alignment, property monitor
 	n := c.N(4000, 150000)
 	lasts := []int{0, 0, 0, 1, 2, 3, 5, 100, -1}
